@@ -76,12 +76,20 @@ WriteOk(r, cs, w) ==
          IN p1ok /\ p3ok
     ELSE InHeader(cs, r.cfg.up, lo, hi)
 
+\* while an exclusive-borrow collection is filled it writes its elements into the prepared free range; finalising moves
+\* them to the bump side of that range: these steps may write anywhere inside the content range of the current chunk
+\* (header included: a write range may straddle both) that is not a live block (live blocks are covered by the damage check)
+PrepWrite(r) == r.a \in {"prep_push", "prep_commit"}
+InChunk(cs, lo, hi) == \E i \in 1..Len(cs) : lo >= cs[i].start /\ hi <= cs[i].start + cs[i].size
+
 C02_Viol(r) ==
     LET cs == Chunks(r.o) IN
     \/ r.o.damaged # <<>>                                             \* a live block's bytes changed
     \/ Has(r.o, "prefix_ok") /\ ~r.o.prefix_ok                         \* realloc lost the surviving prefix
     \/ Has(r.o, "zero_ok") /\ ~r.o.zero_ok                             \* zeroed memory is not zero
-    \/ IsStep(r) /\ r.a # "drop" /\ \E k \in 1..Len(r.o.writes) : ~WriteOk(r, cs, r.o.writes[k])
+    \/ IsStep(r) /\ r.a # "drop" /\ ~PrepWrite(r) /\ \E k \in 1..Len(r.o.writes) : ~WriteOk(r, cs, r.o.writes[k])
+    \/ PrepWrite(r) /\ \E k \in 1..Len(r.o.writes) :
+          ~InChunk(cs, r.o.writes[k][1], r.o.writes[k][2])
 
 (***************************************************************************)
 (* C03  leaving a scope restores the allocator exactly                     *)
@@ -105,7 +113,7 @@ C03_Viol(r) ==
 (***************************************************************************)
 BaseEvs(r) == r.o.base
 MayRelease(r) == r.a \in {"reset", "drop", "final"}
-MayAcquire(r) == r.a \in {"ctor", "alloc", "grow", "shrink", "reserve", "enter"} \* enter: by_value / claim on unallocated
+MayAcquire(r) == r.a \in {"ctor", "alloc", "grow", "shrink", "reserve", "enter", "prep_push"} \* enter: by_value / claim on unallocated
 FreeOk(gs, ev) ==
     \E g \in 1..Len(gs) : /\ gs[g].addr = ev[2] /\ ~gs[g].live /\ gs[g].frees = 1
                           /\ gs[g].align = ev[4] /\ ev[3] >= gs[g].req /\ ev[3] <= gs[g].size
@@ -230,6 +238,33 @@ C18_Viol(r) ==
     \/ IsStep(r) /\ (r.exp.inaligned \/ AlignedFrame(r)) /\ (r.o.damaged # <<>> \/ C01_Viol(r))
 
 (***************************************************************************)
+(* C15  exclusive-borrow collections use free space without moving the     *)
+(*      pointer; finalising advances it by the contents plus padding       *)
+(***************************************************************************)
+PrepFill(r) == (r.a = "enter" /\ r.args.kind = "prep") \/ r.a \in {"prep_push", "prep_drop"}
+Abs(x) == IF x < 0 THEN 0 - x ELSE x
+C15_Viol(r) ==
+    \/ PrepFill(r) /\ Has(r.o, "echunks") /\
+         LET ec == r.o.echunks  cs == r.o.chunks IN
+         \/ Len(cs) < Len(ec)
+         \* the chunk that was current at creation and all earlier chunks: position unchanged
+         \/ \E k \in 1..Len(ec) : k <= r.o.ecur /\ (cs[k][1] # ec[k][1] \/ cs[k][5] # ec[k][2])
+         \* at most a later, still empty chunk became the current one
+         \/ r.o.cur < r.o.ecur
+         \/ r.o.cur # r.o.ecur /\ r.o.cur # 0 /\ cs[r.o.cur][6] # 0
+         \/ r.o.res = "panic"
+         \/ r.o.res = "err" /\ ~ScriptedFail(r)
+    \/ r.a = "prep_commit" /\
+         \/ r.o.res # "ok"
+         \/ ~r.o.content_ok                                       \* exactly the pushed elements (reversed for rev)
+         \/ r.o.len # r.exp.x.len * r.exp.x.esz
+         \/ r.o.len > 0 /\ r.o.cur # 0 /\ r.o.pp[1] = r.o.chunks[r.o.cur][1] /\
+              LET adv == Abs(r.o.chunks[r.o.cur][5] - r.o.pp[2]) IN
+              adv < r.o.len \/ adv > r.o.len + (r.exp.x.eal - 1) + (r.o.ma - 1)
+         \/ r.o.len > 0 /\ r.o.addr % r.exp.x.eal # 0
+         \/ r.o.damaged # <<>>
+
+(***************************************************************************)
 (* DRIFT: the observation differs from the model's exact prediction        *)
 (***************************************************************************)
 Drift(r) ==
@@ -253,6 +288,9 @@ Init == /\ done = TRUE
         /\ PrintT(<<"BAD_C07", {i \in Idx : C07_Viol(Rec[i])}>>)
         /\ PrintT(<<"BAD_C14", {i \in Idx : C14_Viol(Rec[i])}>>)
         /\ PrintT(<<"BAD_C18", {i \in Idx : C18_Viol(Rec[i])}>>)
+        /\ PrintT(<<"BAD_C15", {i \in Idx : C15_Viol(Rec[i])}>>)
+        /\ PrintT(<<"N_PREP", Cardinality({i \in Idx : PrepFill(Rec[i]) \/ Rec[i].a = "prep_commit"})>>)
+        /\ PrintT(<<"N_COMMIT", Cardinality({i \in Idx : Rec[i].a = "prep_commit" /\ Rec[i].o.len > 0})>>)
         /\ PrintT(<<"N_FAIL", Cardinality({i \in Idx : IsStep(Rec[i]) /\ (ScriptedFail(Rec[i]) \/ Rec[i].a = "alloc_huge")})>>)
         /\ PrintT(<<"N_CLAIMED_OP", Cardinality({i \in Idx : Rec[i].a = "claimed_op"})>>)
         /\ PrintT(<<"N_ALIGNED", Cardinality({i \in Idx : IsStep(Rec[i]) /\ Rec[i].exp.inaligned})>>)
